@@ -1343,6 +1343,11 @@ def spec_implies(it, node, env):
         b = it.truth(it.eval(node.args[1], env))
     except Infeasible:
         b = True  # the antecedent cannot hold on this path
+    except (_Raise, Unsupported):
+        # the consequent is not even evaluable (e.g. len() of a number): fine if the antecedent cannot hold on this path
+        if it.feasible():
+            raise
+        b = True
     finally:
         del it.pc[n_pc - 1:]
     if isinstance(b, ForallV):
